@@ -16,10 +16,10 @@ import (
 	"time"
 
 	"github.com/mimecast/dtail/internal/clients"
+	clientHandlers "github.com/mimecast/dtail/internal/clients/handlers"
 	"github.com/mimecast/dtail/internal/config"
 	"github.com/mimecast/dtail/internal/io/line"
 	"github.com/mimecast/dtail/internal/mapr"
-	maprclient "github.com/mimecast/dtail/internal/mapr/client"
 	maprserver "github.com/mimecast/dtail/internal/mapr/server"
 	serverHandlers "github.com/mimecast/dtail/internal/server/handlers"
 	user "github.com/mimecast/dtail/internal/user/server"
@@ -70,12 +70,25 @@ func init() {
 				i := atoi(p[0])
 				if queues[i] == nil {
 					queues[i] = make(chan string, 1024)
-					agg := maprclient.NewAggregate(fmt.Sprintf("srv%d", i), q, global)
+					// the connection of server i as the session carries it: the real server handler frames each partial
+					// result (Read into one reused buffer, as io.Copy does) and the real client mapreduce handler
+					// reassembles it (Write) and merges it
+					u, err := user.New("verif", "local")
+					if err != nil {
+						panic(err)
+					}
+					sh := serverHandlers.NewServerHandler(u, make(chan struct{}, 2), make(chan struct{}, 2))
+					mh := clientHandlers.NewMaprHandler(fmt.Sprintf("srv%d", i), q, global)
+					buf := make([]byte, []int{5, 16, 64, 9}[i%4])
 					wg.Add(1)
 					go func(ch chan string) {
 						defer wg.Done()
 						for m := range ch {
-							agg.Aggregate(m)
+							sh.VerifC06MaprMessages() <- m
+							for first := true; first || sh.VerifC06ReadPending() > 0; first = false {
+								n, _ := sh.Read(buf)
+								mh.Write(buf[:n])
+							}
 							pending.Done()
 						}
 					}(queues[i])
